@@ -386,6 +386,12 @@ def gen_cases(ctx):
                 cb = bits.cube(cb[0], (1 << rng.randint(0, 30)) - 1)
             members = [cb] + [derive(rng, cb, contiguous_only=True)[0] for _ in range(rng.randint(0, 4))]
             members = [m for m in members if m[1] != bits.ALL]
+            if platform == "nxos" and rng.random() < 0.3:
+                # a non-contiguous wildcard member among the contiguous ones; the question may lie inside it
+                # (the library answers True through an equal member, refuses with TypeError, or must be right)
+                nc = bits.cube(rng.getrandbits(32), (1 << rng.choice([8, 9, 10])) | rng.choice([0, 3, 0xFF]))
+                if not bits.is_contiguous(nc[1]):
+                    members.append(nc)
             rng.shuffle(members)
             ca, rel = derive(rng, rng.choice(members), contiguous_only=True)
             texts = [spell(rng, m, platform, "AddressAg") for m in members]
